@@ -113,6 +113,37 @@ def check(ctx):
         touches = [n for n in ast.walk(lsc) if isinstance(n, ast.Subscript) and isinstance(n.value, ast.Name) and n.value.id == "out"]
         ok = bool(touches) and all(id(n) in inside for n in touches) and bool(find("lock.acquire()", lsc))
     ctx.ob("PAIR.store-chunk.under-lock", lsc, "every out[index] access (write and read-back) of load_store_chunk lies inside the try whose finally releases the lock", ok, "" if ok else "the read-back of return_stored happens after lock.release(): the target is read while another holder of the lock may be writing it")
+    # ---------------- round 4b (C53-m7): getter reads and materialises the chunk while it holds the lock
+    gt4 = ac.func("getter")
+    trys4 = [t for t in ast.walk(gt4) if isinstance(t, ast.Try) and t.finalbody and any("lock.release()" in unparse(s_) for s_ in t.finalbody)]
+    ok = len(trys4) == 1
+    if ok:
+        inside4 = {id(n) for s_ in trys4[0].body for n in ast.walk(s_)}
+        touch4 = [n for n in ast.walk(gt4) if (isinstance(n, ast.Subscript) and eqv(n, "a[b]")) or (isinstance(n, ast.Call) and eqv(n.func, "np.asarray"))]
+        ok = len(touch4) >= 2 and all(id(n) in inside4 for n in touch4)
+    ctx.ob("PAIR.getter.under-lock", trys4[0] if trys4 else gt4, "getter: a[b] and the np.asarray(c) that actually reads a lazy store both lie inside the try whose finally releases the lock", ok, "" if ok else "np.asarray runs after lock.release(): for an h5py/zarr-style lazily indexed store the real read happens without the lock")
+    # ---------------- round 4b (C53-m8): store(lock=True) makes ONE lock for the whole call
+    st4 = ac.func("store")
+    gl4 = [c for c in calls(st4, "get_scheduler_lock")]
+    ok = len(gl4) == 1
+    if ok:
+        par4 = {}
+        for n in ast.walk(st4):
+            for ch in ast.iter_child_nodes(n):
+                par4[id(ch)] = n
+        p4 = par4.get(id(gl4[0]))
+        inloop4 = False
+        q4 = gl4[0]
+        while id(q4) in par4:
+            q4 = par4[id(q4)]
+            if isinstance(q4, (ast.For, ast.While, ast.ListComp, ast.GeneratorExp, ast.SetComp, ast.DictComp, ast.Lambda)):
+                inloop4 = True
+        ok = not inloop4 and isinstance(p4, ast.Assign) and eqv(p4.targets[0], "lock")
+        looptargets4 = {n_.id for f_ in ast.walk(st4) if isinstance(f_, (ast.For, ast.comprehension)) for n_ in ast.walk(f_.target) if isinstance(n_, ast.Name)}
+        ok = ok and "lock" not in looptargets4
+        lk4 = [kwarg(c, "lock") for c in ast.walk(st4) if isinstance(c, ast.Call) and isinstance(c.func, ast.Attribute) and c.func.attr == "map_blocks" and kwarg(c, "lock") is not None]
+        ok = ok and len(lk4) >= 2 and all(eqv(k, "lock") for k in lk4)
+    ctx.ob("EFFECT.store.one-lock", gl4[0] if gl4 else st4, "store: `lock = get_scheduler_lock(...)` once, outside any loop, and every map_blocks(load_store_chunk, ..., lock=lock) uses it", ok, "" if ok else "one lock per target: two sources written into the same target/resource no longer exclude each other")
 
 
 VARIANTS = [
